@@ -343,7 +343,7 @@ def check_property(prop, tier):
             ce = None
         except Exception as e:  # the search only decorates a violation; it never decides
             ce = {"found": False, "note": "counterexample search crashed: %r" % (e,)}
-        if not (ce and ce.get("found")) and oid.split("::", 1)[0] in ("heap", "handlers", "coldpath", "equality", "select"):
+        if not (ce and ce.get("found")) and oid.split("::", 1)[0] in ("heap", "handlers", "coldpath", "equality", "select", "step"):
             # a violated VM obligation: look for a failing program in the bounded corpus on the real quiv binary
             try:
                 from . import progsearch
